@@ -433,77 +433,8 @@ func checkC03Pairing(c *Ctx, et interface{}) {
 	checkSeatMapCtor(c, "R6")
 
 	// R4 add path
-	for _, f := range adders {
-		n := 0
-		for _, ss := range p.Stores([]*ssa.Function{f}) {
-			if ss.Owner != "TablePlayerState" || ss.Field != "Seat" || ss.Addr.Root().Kind != "new" {
-				continue
-			}
-			n++
-			v := ss.Val.Strip()
-			var idStore *StoreSite
-			for _, s2 := range p.Stores([]*ssa.Function{f}) {
-				if s2.Owner == "TablePlayerState" && s2.Field == "PlayerID" && s2.Addr.Root().V == ss.Addr.Root().V {
-					idStore = s2
-				}
-			}
-			ok := v.Kind == "extract" && v.Name == "0" && v.Args[0].IsCall("SeatManager.GetSeatID") && idStore != nil &&
-				v.Args[0].Strip().Args[1].Strip().String() == idStore.Val.Strip().String()
-			c.Check(ok, "R4", fnName(f)+":seat-of-new-player", p.InstrPos(ss.Instr), "Seat ← GetSeatID(that player's id)", "the seat recorded for a new player is "+v.String()+", not the seat manager's answer for that same player id")
-			if ok {
-				gcall := v.Args[0].Strip().Call
-				after := true
-				for _, ci := range Calls(f) {
-					n := calleeName(ci.Common())
-					if (n == "SeatManager.AssignSeats" || n == "SeatManager.RandomAssignSeats") && Reaches(gcall, ci) {
-						after = false
-					}
-				}
-				c.Check(after, "R4", fnName(f)+":seat-read-after-assign", p.InstrPos(gcall), "seat read after assignment", "the seat is read from the seat manager before the player has been assigned")
-			}
-			// seat-map patch uses the same seat
-			patched := false
-			for _, s3 := range p.Stores([]*ssa.Function{f}) {
-				a := s3.Addr.Strip()
-				if a.Kind == "index" && a.Args[1].Strip().String() == v.String() {
-					patched = true
-				}
-			}
-			c.Check(patched, "R4", fnName(f)+":seat-map-patch", p.InstrPos(ss.Instr), "seat map patched at that seat", "the new seat map is not patched at the seat the seat manager assigned")
-			// the value patched in is the index the new player will have in the final list:
-			// len(old list) + len(new players so far) - 1
-			for _, s3 := range p.Stores([]*ssa.Function{f}) {
-				a := s3.Addr.Strip()
-				if a.Kind != "index" || a.Args[1].Strip().String() != v.String() {
-					continue
-				}
-				iv := s3.Val.Strip()
-				okIdx := false
-				if iv.Kind == "binop" && iv.Name == "-" && iv.Args[1].Strip().Name == "1" {
-					sum := iv.Args[0].Strip()
-					if sum.Kind == "binop" && sum.Name == "+" {
-						x, y := sum.Args[0].Strip(), sum.Args[1].Strip()
-						for k := 0; k < 2; k++ {
-							if x.IsCall("len") && x.Args[0].Strip().IsField("TableState", "PlayerStates") && y.IsCall("len") && y.Args[0].Strip().Kind == "builtin" && y.Args[0].Strip().Name == "append" {
-								okIdx = true
-							}
-							x, y = y, x
-						}
-					}
-				}
-				c.Check(okIdx, "R4", fnName(f)+":seat-map-patch-index", p.InstrPos(s3.Instr), "seat ↦ len(old players) + len(new players so far) - 1", "the seat map entry of a new player is "+iv.String()+", not the index that player gets in the extended player list")
-			}
-		}
-		c.Min("R4", "new-player seat stores in "+fnName(f), n, 1)
-		// R6b: the player list only grows by append(old, new...)
-		for _, ss := range p.Stores([]*ssa.Function{f}) {
-			if ss.Owner == "TableState" && ss.Field == "PlayerStates" {
-				v := ss.Val.Strip()
-				ok := v.Kind == "builtin" && v.Name == "append" && v.Args[0].Strip().IsField("TableState", "PlayerStates")
-				c.Check(ok, "R4", fnName(f)+":list-grows-by-append", p.InstrPos(ss.Instr), "PlayerStates = append(PlayerStates, new...)", "existing players may be reordered or dropped when adding: "+v.String())
-			}
-		}
-	}
+	checkAddPath(c, "R4", adders)
+
 	// R4 leave filter definition: a player stays iff his id is not among the leave ids
 	checkLeaveFilter(c)
 	checkAssignValidation(c)
@@ -903,4 +834,92 @@ func checkSeatMapCtor(c *Ctx, rule string) {
 		c.Check(d == "", rule, "seat-map-constructor:"+fnName(f), p.Pos(f.Pos()), "one unset entry per seat", "new seat map: "+d)
 	}
 	c.Min(rule, "seat-map constructors", n, 1)
+}
+
+// checkAddPath: the batch-add function records, for every new player, the seat the seat
+// manager gave that very player, patches the (copied) seat map at that seat with the position
+// the player gets in the extended list, and extends the player list only by appending.
+// Shared by C03.R4 and C02.R6.
+func checkAddPath(c *Ctx, rule string, adders []*ssa.Function) {
+	p := c.P
+	for _, f := range adders {
+		n := 0
+		for _, ss := range p.Stores([]*ssa.Function{f}) {
+			if ss.Owner != "TablePlayerState" || ss.Field != "Seat" || ss.Addr.Root().Kind != "new" {
+				continue
+			}
+			n++
+			v := ss.Val.Strip()
+			var idStore *StoreSite
+			for _, s2 := range p.Stores([]*ssa.Function{f}) {
+				if s2.Owner == "TablePlayerState" && s2.Field == "PlayerID" && s2.Addr.Root().V == ss.Addr.Root().V {
+					idStore = s2
+				}
+			}
+			ok := v.Kind == "extract" && v.Name == "0" && v.Args[0].IsCall("SeatManager.GetSeatID") && idStore != nil &&
+				v.Args[0].Strip().Args[1].Strip().String() == idStore.Val.Strip().String()
+			c.Check(ok, rule, fnName(f)+":seat-of-new-player", p.InstrPos(ss.Instr), "Seat ← GetSeatID(that player's id)", "the seat recorded for a new player is "+v.String()+", not the seat manager's answer for that same player id")
+			if ok {
+				gcall := v.Args[0].Strip().Call
+				after := true
+				for _, ci := range Calls(f) {
+					n := calleeName(ci.Common())
+					if (n == "SeatManager.AssignSeats" || n == "SeatManager.RandomAssignSeats") && Reaches(gcall, ci) {
+						after = false
+					}
+				}
+				c.Check(after, rule, fnName(f)+":seat-read-after-assign", p.InstrPos(gcall), "seat read after assignment", "the seat is read from the seat manager before the player has been assigned")
+			}
+			// seat-map patch uses the same seat
+			patched := false
+			for _, s3 := range p.Stores([]*ssa.Function{f}) {
+				a := s3.Addr.Strip()
+				if a.Kind == "index" && a.Args[1].Strip().String() == v.String() {
+					patched = true
+				}
+			}
+			c.Check(patched, rule, fnName(f)+":seat-map-patch", p.InstrPos(ss.Instr), "seat map patched at that seat", "the new seat map is not patched at the seat the seat manager assigned")
+			// the value patched in is the index the new player will have in the final list:
+			// len(old list) + len(new players so far) - 1
+			for _, s3 := range p.Stores([]*ssa.Function{f}) {
+				a := s3.Addr.Strip()
+				if a.Kind != "index" || a.Args[1].Strip().String() != v.String() {
+					continue
+				}
+				iv := s3.Val.Strip()
+				// len(old list) + len(new players) with the offset that makes it the new player's own position:
+				// −1 when the new-player list already contains him (counted after the append), 0 when counted before
+				okIdx := false
+				sum, off := iv, int64(0)
+				if iv.Kind == "binop" && iv.Name == "-" {
+					if k, isK := iv.Args[1].ConstInt(); isK {
+						sum, off = iv.Args[0].Strip(), -k
+					}
+				}
+				if sum.Kind == "binop" && sum.Name == "+" {
+					x, y := sum.Args[0].Strip(), sum.Args[1].Strip()
+					for k := 0; k < 2; k++ {
+						if x.IsCall("len") && x.Args[0].Strip().IsField("TableState", "PlayerStates") && y.IsCall("len") && symType(y.Args[0]) == "[]*TablePlayerState" {
+							nl := y.Args[0].Strip()
+							after := nl.Kind == "builtin" && nl.Name == "append"
+							if (after && off == -1) || (!after && nl.Kind == "phi" && off == 0) {
+								okIdx = true
+							}
+						}
+						x, y = y, x
+					}
+				}
+				c.Check(okIdx, rule, fnName(f)+":seat-map-patch-index", p.InstrPos(s3.Instr), "seat ↦ len(old players) + len(new players so far) - 1", "the seat map entry of a new player is "+iv.String()+", not the index that player gets in the extended player list")
+			}
+		}
+		c.Min(rule, "new-player seat stores in "+fnName(f), n, 1)
+		// R6b: the player list only grows by append(old, new...)
+		for _, ss := range p.Stores([]*ssa.Function{f}) {
+			if ss.Owner == "TableState" && ss.Field == "PlayerStates" {
+				v := ss.Val.Strip()
+				ok := v.Kind == "builtin" && v.Name == "append" && v.Args[0].Strip().IsField("TableState", "PlayerStates")
+				c.Check(ok, rule, fnName(f)+":list-grows-by-append", p.InstrPos(ss.Instr), "PlayerStates = append(PlayerStates, new...)", "existing players may be reordered or dropped when adding: "+v.String())
+			}
+		}
+	}
 }
